@@ -271,6 +271,40 @@ def case_reducer(c):
     return {'viol': viol, 'nontrivial': [engine.sha(c)] if N != I else [], 'outcomes': ['red/%d/%d' % (N, I)]}
 
 
+def case_leakage(c):
+    """level_utils.get_leakage_factor: 1/sinc of the distance from the tone to the nearest fine-channel centre, the fine channels
+    being counted from fch1 along the band's own direction (both orientations)."""
+    import setigen.voltage as sv
+    from setigen.voltage import level_utils
+    viol = []
+    rate, P, N, asc = c['rate'], c['P'], c['N'], c['asc']
+    fch1 = c['fch1']
+    ant = sv.Antenna(sample_rate=rate, fch1=fch1, ascending=asc, num_pols=1, seed=1)
+    be = sv.RawVoltageBackend(ant, digitizer=sv.RealQuantizer(), filterbank=sv.PolyphaseFilterbank(num_taps=2, num_branches=P),
+                              requantizer=sv.ComplexQuantizer(), start_chan=0, num_chans=P // 2, block_size=2 * (P // 2) * 2 * 4,
+                              blocks_per_file=1, num_subblocks=1)
+    fine = rate / P / N
+    sgn = 1 if asc else -1
+    n = 0
+    for k in (0, 1, 7, N + 3):
+        for o in (0.0, 0.1, 0.25, 0.4, 0.6, 0.75, 0.9):
+            f = fch1 + sgn * (k + o) * fine
+            want = 1.0 / np.sinc(min(o, 1.0 - o))
+            n += 1
+            try:
+                got = float(level_utils.get_leakage_factor(f, be, N))
+            except Exception as e:
+                viol.append({'site': 'level_utils.get_leakage_factor', 'failure': 'raised', 'detail': '%s: %s' % (type(e).__name__, e)})
+                continue
+            # conditioning: d(1/sinc)/do is bounded by ~2.5 on [0, 0.5]; the offset itself carries ~ulp(f)/fine of rounding
+            tol = 1e-9 + 4.0 * (abs(f) * 2.0 ** -52 / fine + 2.0 ** -50 * (k + 1))
+            if abs(got - want) > tol * want:
+                viol.append({'site': 'level_utils.get_leakage_factor', 'failure': 'leakage_factor',
+                             'detail': '%s band, tone %.2f fine channels past centre %d: factor %r, 1/sinc(distance to the nearest centre) = %r'
+                                       % ('ascending' if asc else 'descending', o, k, got, want)})
+    return {'viol': viol, 'n': n, 'nontrivial': [engine.sha(c)], 'outcomes': ['leak/%s' % asc]}
+
+
 def run(ctx):
     Tt = ctx.tier == 'thorough'
     cases = []
@@ -319,6 +353,8 @@ def run(ctx):
                     if directio and N == 4:
                         red.append(dict(N=N, I=I, nc=nc, T=64, directio=directio, seed=ctx.seed, aligned=True))
     ctx.pmap(case_reducer, red)
+    ctx.pmap(case_leakage, [dict(rate=r_, P=P_, N=N_, asc=a_, fch1=f_) for (r_, P_) in ((1024.0, 16), (3e9, 1024))
+                            for N_ in (16, 1024) for a_ in (True, False) for f_ in (0.0, 6e9) if not (not a_ and f_ == 0.0)])
     # reading the parameters back from a stem that was recorded before with ANOTHER orientation / fch1 / first channel
     from mc.checks import c04
     confs = [dict(bpf=2, nb=2, asc=True, fch1=0.0, start_chan=0, num_chans=2, npol=2, source='ant', dio=1),
